@@ -402,11 +402,11 @@ Section InjectProof.
         destruct b.
         + rewrite set_nth_app.
           specialize (IH Hall' (pre ++ [nv]) true). rewrite app_length in IH. simpl in IH.
-          rewrite Nat.add_1_r in IH. rewrite <- app_assoc in IH. simpl in IH.
+          rewrite PeanoNat.Nat.add_1_r in IH. rewrite <- app_assoc in IH. simpl in IH.
           destruct (inject_walk q S inj lol ofs t' r (Datatypes.S (length pre)) (Datatypes.S (length pre)) (pre ++ nv :: r) true) as [out b2| | |]; auto.
           destruct IH as [l' [-> HF]]. exists (nv :: l'). rewrite <- app_assoc. simpl. split; auto.
         + specialize (IH Hall' (pre ++ [x]) rep). rewrite app_length in IH. simpl in IH.
-          rewrite Nat.add_1_r in IH. rewrite <- app_assoc in IH. simpl in IH.
+          rewrite PeanoNat.Nat.add_1_r in IH. rewrite <- app_assoc in IH. simpl in IH.
           destruct (inject_walk q S inj lol ofs t' r (Datatypes.S (length pre)) (Datatypes.S (length pre)) (pre ++ x :: r) rep) as [out b2| | |]; auto.
           destruct IH as [l' [-> HF]]. exists (x :: l'). rewrite <- app_assoc. simpl. split; auto.
           constructor; auto. unfold rel. auto.
@@ -423,4 +423,154 @@ Section InjectProof.
       destruct x; try (apply IH; auto); subst lol; apply IH; auto.
     Qed.
   End Parts.
+
+  Lemma shp_strip : forall isobj fs j t, shp S isobj fs j t = shp S isobj fs j (strip_nonnull t).
+  Proof. induction t; simpl; auto. rewrite shp_eq. auto. Qed.
+
+  Lemma strip_cases : forall t, (exists n, strip_nonnull t = TNamed n /\ is_list t = false /\ n = named_of t)
+                                \/ (exists t', strip_nonnull t = TList t' /\ is_list t = true /\ named_of t' = named_of t).
+  Proof.
+    intros t. unfold is_list. pose proof (named_of_strip t) as Hn.
+    destruct (strip_nonnull t) as [n|t'|t'] eqn:E.
+    - left. exists n. simpl in Hn. auto.
+    - right. exists t'. simpl in Hn. auto.
+    - exfalso. eapply strip_nonnull_not_nonnull; eauto.
+  Qed.
+
+  Lemma good_res_refl : forall v t b, json_nodup v = true -> good_res v t (IOk v b).
+  Proof. intros. simpl. auto. Qed.
+
+  Lemma forallb_rel : forall t l l', Forall2 (rel t) l l' ->
+      forallb (fun x => coercible_j d S x t) l' = forallb (fun x => coercible_j d S x t) l
+      /\ forallb json_nodup l' = true.
+  Proof.
+    induction 1 as [|x x' l l' [H1 [H2 H3]] HF [IH1 IH2]]; simpl; auto.
+    rewrite H1, IH1, H2, IH2. auto.
+  Qed.
+
+  Lemma good_res_arr : forall t t' items l' b,
+      strip_nonnull t = TList t' -> Forall2 (rel t') items l' -> good_res (JArr items) t (IOk (JArr l') b).
+  Proof.
+    intros t t' items l' b Hs HF. destruct (forallb_rel _ _ _ HF) as [H1 H2]. unfold good_res.
+    rewrite (coercible_j_strip d S (JArr l') t) by reflexivity.
+    rewrite (coercible_j_strip d S (JArr items) t) by reflexivity.
+    rewrite Hs. rewrite (coercible_j_eq d S (JArr l')), (coercible_j_eq d S (JArr items)). rewrite H1.
+    rewrite json_nodup_arr. repeat split; auto.
+  Qed.
+
+  Lemma entry_intro : forall v t td,
+      lookup S (named_of t) = Some td -> td_kind td <> KScalar -> is_str v = false ->
+      kind_eqb (td_kind td) KInputObject || is_list t = true ->
+      shp S (kind_eqb (td_kind td) KInputObject) (td_input_fields td) v t = true ->
+      entry S v t = true.
+  Proof.
+    intros v t td Hl Hk Hs Ho Hsh. unfold entry. rewrite Hl, Hs. cbn [negb andb].
+    destruct (jnull v); auto. cbn [orb].
+    destruct (td_kind td) eqn:E; try (exfalso; apply Hk; reflexivity); rewrite Ho, Hsh; reflexivity.
+  Qed.
+
+  Lemma core_ok : forall fuel,
+      (forall t v, entry S v t = true -> json_nodup v = true -> good_res v t (inject q S reparse fuel t v)) ->
+      forall t v td,
+        lookup S (named_of t) = Some td -> td_kind td <> KScalar ->
+        is_str v = false -> jnull v = false ->
+        kind_eqb (td_kind td) KInputObject || is_list t = true ->
+        shp S (kind_eqb (td_kind td) KInputObject) (td_input_fields td) v t = true ->
+        json_nodup v = true ->
+        good_res v t
+                 (match v with
+                  | JNull => IOk v true
+                  | JArr items =>
+                    if is_list t then
+                      match strip_nonnull t with
+                      | TList t' => inject_walk q S (inject q S reparse fuel) (is_list t') (fields_by_ref S td) t' items O O items false
+                      | _ => IOk v false
+                      end
+                    else IOk v false
+                  | _ => if is_list t then IOk v false else
+                           match inject_fields S (inject q S reparse fuel) (fields_by_ref S td) v with
+                           | IOk _ false => IOk v false
+                           | other => other
+                           end
+                  end).
+  Proof.
+    intros fuel IH t v td Hl Hk Hs Hnn Hol Hsh Hnd.
+    unfold lookup in Hl. destruct (find_type_in _ _ _ Hl) as [Htd Hname].
+    assert (Hfound : find_type (td_name td) (s_types S) = Some td) by (rewrite Hname; exact Hl).
+    rewrite shp_strip in Hsh.
+    set (isobj := kind_eqb (td_kind td) KInputObject) in *.
+    assert (Hobjk : isobj = true -> td_kind td = KInputObject /\ fields_by_ref S td = Some (td_input_fields td)).
+    { unfold isobj. intros H. destruct (td_kind td) eqn:E; try discriminate. split; auto. unfold fields_by_ref. rewrite E. auto. }
+    destruct (strip_cases t) as [[n [Est [Hlist Hn]]]|[t' [Est [Hlist Hn]]]]; rewrite Est in Hsh; rewrite shp_eq in Hsh; rewrite Hlist in *.
+    - (* a named type: the value is an input object *)
+      rewrite orb_false_r in Hol. rewrite Hol in Hsh. destruct (Hobjk Hol) as [Hkind Hfb].
+      destruct v as [| | | |items|ms]; try discriminate.
+      rewrite Hfb.
+      assert (Hnt : named_of t = td_name td) by congruence.
+      pose proof (fields_ok (inject q S reparse fuel) IH td Htd Hkind Hfound t ms Hnt Hlist Hsh Hnd) as H.
+      destruct (inject_fields S (inject q S reparse fuel) (Some (td_input_fields td)) (JObj ms)) as [nv b| | |]; auto.
+      destruct b; [exact H|apply good_res_refl; auto].
+    - (* a list type: the value is an array *)
+      destruct v as [| | | |items|ms]; try discriminate.
+      rewrite Est.
+      rewrite json_nodup_arr in Hnd. rewrite forallb_forall in Hsh, Hnd.
+      assert (Hlk : lookup S (named_of t') = Some td) by (unfold lookup; rewrite Hn; exact Hl).
+      destruct (is_list t') eqn:Hlol.
+      + (* list of lists: every element is an array and goes through the next level *)
+        pose proof (walk_all (inject q S reparse fuel) true (fields_by_ref S td) t' (fun x => inject q S reparse fuel t' x) items) as HW.
+        match type of HW with (?A -> _) => assert (Hall : A) end; [|specialize (HW Hall [] false); simpl in HW].
+        { intros x Hin. specialize (Hsh x Hin). specialize (Hnd x Hin).
+          assert (Hsh' := Hsh). rewrite shp_strip in Hsh.
+          destruct (strip_cases t') as [[n2 [E2 [Hl2 _]]]|[t2 [E2 [Hl2 _]]]]; [congruence|].
+          rewrite E2 in Hsh. rewrite shp_eq in Hsh.
+          destruct x as [| | | |xs|xm]; try discriminate.
+          split; [reflexivity|]. split; auto.
+          assert (He : entry S (JArr xs) t' = true).
+          { apply (entry_intro (JArr xs) t' td); auto. rewrite Hlol. apply orb_true_r. }
+          specialize (IH t' (JArr xs) He Hnd).
+          destruct (inject q S reparse fuel t' (JArr xs)); simpl in IH; auto. }
+        destruct (inject_walk q S (inject q S reparse fuel) true (fields_by_ref S td) t' items 0 0 items false) as [out b| | |]; auto.
+        destruct HW as [l' [-> HF]]. eapply good_res_arr; eauto.
+      + destruct isobj eqn:Eobj.
+        * (* list of input objects: every element is an object *)
+          destruct (Hobjk eq_refl) as [Hkind Hfb]. rewrite Hfb.
+          pose proof (walk_all (inject q S reparse fuel) false (Some (td_input_fields td)) t'
+                               (fun x => inject_fields S (inject q S reparse fuel) (Some (td_input_fields td)) x) items) as HW.
+          match type of HW with (?A -> _) => assert (Hall : A) end; [|specialize (HW Hall [] false); simpl in HW].
+          { intros x Hin. specialize (Hsh x Hin). specialize (Hnd x Hin).
+            rewrite shp_strip in Hsh.
+            destruct (strip_cases t') as [[n2 [E2 [Hl2 Hn2]]]|[t2 [E2 [Hl2 _]]]]; [|congruence].
+            rewrite E2 in Hsh. rewrite shp_eq in Hsh.
+            destruct x as [| | | |xs|xm]; try discriminate.
+            split; [reflexivity|]. split; auto.
+            assert (Hnt : named_of t' = td_name td) by congruence.
+            exact (fields_ok (inject q S reparse fuel) IH td Htd Hkind Hfound t' xm Hnt Hl2 Hsh Hnd). }
+          destruct (inject_walk q S (inject q S reparse fuel) false (Some (td_input_fields td)) t' items 0 0 items false) as [out b| | |]; auto.
+          destruct HW as [l' [-> HF]]. eapply good_res_arr; eauto.
+        * (* list of enums (or of another kind): nothing is processed *)
+          rewrite walk_none.
+          -- apply good_res_refl. rewrite json_nodup_arr. apply forallb_forall. auto.
+          -- intros x Hin. specialize (Hsh x Hin). rewrite shp_strip in Hsh.
+             destruct (strip_cases t') as [[n2 [E2 _]]|[t2 [E2 [Hl2 _]]]]; [|congruence].
+             rewrite E2 in Hsh. rewrite shp_eq in Hsh. destruct x; auto. discriminate.
+  Qed.
+
+  (* processObjectOrListInput on a well-shaped value: same coercibility, keys still unique, null stays null *)
+  Theorem inject_ok : forall fuel t v,
+      entry S v t = true -> json_nodup v = true -> good_res v t (inject q S reparse fuel t v).
+  Proof.
+    induction fuel as [|fuel IH]; intros t v He Hn; [exact I|].
+    unfold entry in He. apply andb_true_iff in He. destruct He as [Hs He]. apply negb_true_iff in Hs.
+    cbn [inject].
+    assert (Hoval : match v with JStr s => if q_inject_reparse q then reparse s else Some v | _ => Some v end = Some v)
+      by (destruct v; auto; discriminate).
+    rewrite Hoval.
+    destruct (lookup S (named_of t)) as [td|] eqn:El; [|apply good_res_refl; auto].
+    destruct (jnull v) eqn:Hnull.
+    { destruct v; try discriminate. destruct (td_kind td); simpl; auto. }
+    simpl in He.
+    destruct (td_kind td) eqn:Ek; try (apply good_res_refl; auto; fail);
+      apply andb_true_iff in He; destruct He as [He1 He2];
+        (apply (core_ok fuel IH t v td El); [rewrite Ek; discriminate| | | | |]; auto; rewrite Ek; auto).
+  Qed.
 End InjectProof.
